@@ -13,7 +13,7 @@ from harness.common import traffic_syms, gt_sets, sym_slots
 PROPERTY = "C19"
 LEVEL = "model_checking"
 UNCONFIRMED_OK = True   # a difference seen only under an explored set order is a candidate; see DESIGN §5 C19
-BOUNDS = {"hours_per_series": "N=2", "skeletons": "T2, T3, T5, T9, TX and two-device/two-job variants",
+BOUNDS = {"hours_per_series": "N=2", "skeletons": "T2, T3, T5, T9, TX, two-device/two-job variants, and T5n (servers, storages and networks named alike)",
           "configurations": "all permutations of usage_patterns / devices / same-step jobs (lists <= 3); reversed creation "
           "order of the objects of each class; 6 identifier assignments (uuid counter offsets); set iteration order as an "
           "explored choice for the first 3 (quick) / 5 (thorough) sets with >= 2 elements met while computing; 4 real "
@@ -80,6 +80,17 @@ def base_spec(skeleton):
         s["jobs"]["job3"] = {"server": "srv"}
         s["steps"]["step"]["jobs"] = ["job", "job3"]
         return s
+    if skeleton == "T5n":
+        # two servers, two storages and two networks that carry the same display names (library default names), with
+        # different loads
+        s = M.T5(2, type1="autoscaling", type2="serverless")
+        s["servers"]["srv2"]["name"] = "srv"
+        s["storages"]["st2"]["name"] = "st"
+        s["networks"]["net2"] = {"name": "net"}
+        s["journeys"]["uj2"] = {"steps": ["step"]}
+        s["patterns"]["up2"] = M._pattern("uj2", network="net2", n=2, default=[5, 7])
+        s["system"]["patterns"] = ["up", "up2"]
+        return s
     if skeleton == "T2c":
         # two usage patterns in different countries sharing one network and one journey
         s = M.T2(2)
@@ -135,7 +146,7 @@ from harness import model as M, values as V
 from harness.c19 import base_spec
 class C: symbolic = False
 out = {}
-for sk in ("T3", "T5", "T2d", "T9", "T2c", "T3b", "TX"):
+for sk in ("T3", "T5", "T2d", "T9", "T2c", "T3b", "TX", "T5n"):
     objs = M.build(base_spec(sk), M.Env(C(), {}))
     for name, o in objs.items():
         if hasattr(o, "calculated_attributes"):
@@ -181,7 +192,7 @@ HARNESSES = {"config": h_config, "hashseed": h_hashseed}
 
 def plan(tier, seed):
     p = []
-    for sk in ("T3", "T9", "T2d", "T2c"):
+    for sk in ("T3", "T9", "T2d", "T2c", "T5n"):
         for perm in itertools.permutations(range(2)):
             p.append(("config", dict(skeleton=sk, kind="patterns", arg=list(perm))))
     for perm in itertools.permutations(range(3)):
@@ -191,7 +202,7 @@ def plan(tier, seed):
         p.append(("config", dict(skeleton="T5", kind="step_jobs", arg=list(perm))))
     for perm in itertools.permutations(range(3)):
         p.append(("config", dict(skeleton="TX", kind="patterns", arg=list(perm))))
-    for sk in ("T3", "T5", "T9", "T2d", "T2c", "T3b", "T7d", "TX"):
+    for sk in ("T3", "T5", "T9", "T2d", "T2c", "T3b", "T7d", "TX", "T5n"):
         p.append(("config", dict(skeleton=sk, kind="creation", arg="reversed")))
         p.append(("config", dict(skeleton=sk, kind="creation", arg=seed + 1)))
         for off in (1000, 2000, 31337, 77777, 123456):
